@@ -519,7 +519,7 @@ def oracle_c05(plan, obs):
                 raise Violation("C05", "more_drilling_than_evaluated_feasible",
                                 f"returned {n}x{h:.3f}={total:.1f} m > {e['n']}x{hmax} of evaluated feasible {e['spec']} "
                                 f"({method},{mode}{', a list search raised and was swallowed' if swallowed else ''})",
-                                site=f"{method}:{mode}" + (":swallowed_search_error" if swallowed else ""))
+                                site=f"{method}:swallowed_search_error" if swallowed else f"{method}:{mode}")
     if method in ("NEARSQUARE", "RECTANGLE", "BIRECTANGLE") and mode in ("monotone", "sorted"):
         s = obs["search"]
         dom = s.coordinates_domain
